@@ -28,8 +28,15 @@ def GRP(syms, sel=False):
     return {"k": "group", "syms": syms, "sel": sel}
 
 
+def LOC(kind, sel=True):
+    """`@L` / `@R` inside an alternative (not a grammar symbol: dropped from the rhs handed to Macro.tla)"""
+    return {"k": kind, "n": "@" + kind, "sel": sel}
+
+
 def render_expr(e):
     k = e["k"]
+    if k in ("L", "R"):
+        return "@" + k
     if k == "t":
         return '"%s"' % e["n"]
     if k in ("nt", "param"):
@@ -103,9 +110,16 @@ NOFAIL = {"on": False, "s": 1, "m": 1, "r": 0}
 
 def alt_P(a, unit):
     form = {"usera": "user"}.get(a["form"], a["form"])
+    syms = []
+    n = 0
+    for e in a["rhs"]:
+        if e["k"] in ("L", "R"):
+            syms.append({"k": e["k"], "i": n, "sel": e["sel"]})
+        else:
+            n += 1
+            syms.append({"k": "sym", "i": n, "sel": e["sel"]})
     return {"tag": a["tag"], "form": form, "esym": 0, "exact": a["form"] in ("user", "fallible"), "unit": unit,
-            "syms": [{"k": "sym", "i": i + 1, "sel": e["sel"]} for i, e in enumerate(a["rhs"])],
-            "fail": a["fail"] if a.get("fail", {}).get("on") else NOFAIL}
+            "syms": syms, "fail": a["fail"] if a.get("fail", {}).get("on") else NOFAIL}
 
 
 def eval_case(sg, start, n, inject):
@@ -117,7 +131,8 @@ def eval_case(sg, start, n, inject):
             cond = {"on": bool(c["on"]), "lhs": c.get("lhs", ""), "op": c.get("op", "=="), "rhs": c.get("rhs", ""),
                     "pat": c.get("pat") or {"k": "exact", "s": "", "set": []}}
             cond["pat"] = {"k": cond["pat"]["k"], "s": cond["pat"].get("s", ""), "set": cond["pat"].get("set", [])}
-            alts.append({"cond": cond, "rhs": a["rhs"], "P": alt_P(a, it["kind"] == "unit")})
+            alts.append({"cond": cond, "rhs": [e for e in a["rhs"] if e["k"] not in ("L", "R")],
+                         "P": alt_P(a, it["kind"] == "unit")})
         items.append({"name": it["name"], "params": it["params"], "alts": alts})
     return {"id": "%s@%s" % (sg["id"], start), "ts": list(sg["ts"]), "start": start, "n": n, "inject": inject,
             "sugar": {"items": items}}
@@ -150,7 +165,8 @@ def macro_grammar(rng, idx):
         items.append({"name": name, "params": [], "kind": "V", "alts": alts})
         plain_v.append(name)
     macros = {}
-    chosen = rng.sample(["Lst", "Pr", "Op", "Cd", "Tr", "Pl", "Sep"], rng.choice([2, 3, 3]))
+    chosen = rng.sample(["Lst", "Pr", "Op", "Cd", "Tr", "Pl", "Sep", "Sp", "Sp"], rng.choice([2, 3, 3]))
+    chosen = list(dict.fromkeys(chosen))
     for m in chosen:
         if m == "Lst":     # the tutorial's Comma<E>: (<E> sep)* E?
             sep = rng.choice(ts)
@@ -160,6 +176,15 @@ def macro_grammar(rng, idx):
             sep = rng.choice(ts)
             a = alt([PARAM("E", True), REP("*", GRP([T(sep), PARAM("E", True)]), True)], "usera", nt())
             macros[m] = {"name": m, "params": ["E"], "kind": "V", "alts": [a], "argkinds": ["any"]}
+        elif m == "Sp":    # the book's Spanned<T>: locations around a parameter, also with symbols after them
+            form = rng.random()
+            if form < 0.4:
+                rhs = [LOC("L"), PARAM("E", True), LOC("R")]
+            elif form < 0.7:
+                rhs = [LOC("L"), PARAM("E", True), LOC("R"), T(rng.choice(ts))]
+            else:
+                rhs = [T(rng.choice(ts)), LOC("R"), PARAM("E", True), LOC("L"), T(rng.choice(ts)), LOC("R")]
+            macros[m] = {"name": m, "params": ["E"], "kind": "V", "alts": [alt(rhs, "user", nt())], "argkinds": ["nonempty"]}
         elif m == "Pr":
             a1 = alt([PARAM("X", True), PARAM("Y", True)], "usera", nt())
             a2 = alt([T(rng.choice(ts)), PARAM("Y", True), T(rng.choice(ts))], "user", nt())
@@ -191,6 +216,8 @@ def macro_grammar(rng, idx):
         r = rng.random()
         if kind == "term":
             return T(rng.choice(ts))
+        if kind == "nonempty":     # something that never derives the empty string (locations next to it are exact)
+            return T(rng.choice(ts)) if r < 0.5 else NT(rng.choice(plain_v))
         if kind == "V":
             if depth < 1 and r < 0.3:
                 return use(depth + 1, need_v=True)
